@@ -230,3 +230,68 @@ def take_positions(m, pos):
         dims.append(m.dims[d])
         labs.append([m.labels[d][int(q)] for q in p])
     return MA(v, dims, labs)
+
+
+# ---------------------------------------------------------------------------------------
+# C04: label-wise arithmetic
+# ---------------------------------------------------------------------------------------
+def uniq_union(*label_lists):
+    out = []
+    for l in label_lists:
+        for x in l:
+            if not any(lab_eq(x, y) for y in out):
+                out.append(x)
+    return out
+
+
+def lookup(m, coord_by_dim):
+    """value of model array m at the label coordinate {dim: label}; dims m lacks are ignored.
+    Returns (found, value)."""
+    pos = []
+    for d, lab in zip(m.dims, m.labels):
+        c = coord_by_dim[d]
+        for i, l in enumerate(lab):
+            if lab_eq(l, c):
+                pos.append(i)
+                break
+        else:
+            return False, None
+    return True, m.values[tuple(pos)]
+
+
+def check_binop(got, a, b, ufunc, what="a op b"):
+    """got: observed MA of `a op b`; a, b: model operands.  None or a message."""
+    exp_dims = tuple(a.dims) + tuple(d for d in b.dims if d not in a.dims)
+    if tuple(got.dims) != exp_dims:
+        return "%s: dims %r, expected %r (first operand's dims, then the new ones)" % (what, tuple(got.dims), exp_dims)
+    filled = False
+    for d, lab in zip(got.dims, got.labels):
+        srcs = [m.labels[m.dims.index(d)] for m in (a, b) if d in m.dims]
+        un = uniq_union(*srcs)
+        for i, x in enumerate(lab):
+            if any(lab_eq(x, y) for y in lab[:i]):
+                return "%s: label %r repeated on dimension %r: %r" % (what, x, d, lab)
+        if len(lab) != len(un) or not all(any(lab_eq(x, y) for y in un) for x in lab):
+            return "%s: labels of %r are %r, expected the union %r (each label once)" % (what, d, lab, un)
+        if any(len(s) != len(un) for s in srcs):
+            filled = True
+    isint = a.values.dtype.kind in 'iu' and b.values.dtype.kind in 'iu'
+    for pos in itertools.product(*[range(n) for n in got.values.shape]):
+        coord = {d: got.labels[k][p] for k, (d, p) in enumerate(zip(got.dims, pos))}
+        fa, va = lookup(a, coord)
+        fb, vb = lookup(b, coord)
+        if not fa:
+            va = np.float64('nan')
+        if not fb:
+            vb = np.float64('nan')
+        with np.errstate(all='ignore'):
+            ev = ufunc(va, vb)
+        gv = got.values[pos]
+        if not (lab_eq(gv, ev) or (isnan(gv) and isnan(ev))):
+            return "%s: value at %r is %r, expected %s(%r, %r) = %r" % (what, coord, gv, ufunc.__name__, va, vb, ev)
+    if not filled and got.values.size:
+        with np.errstate(all='ignore'):
+            ek = ufunc(a.values.dtype.type(1), b.values.dtype.type(1)).dtype.kind
+        if got.values.dtype.kind != ek:
+            return "%s: dtype %s, expected kind %r (operand dtypes %s, %s; no missing labels)" % (what, got.values.dtype, ek, a.values.dtype, b.values.dtype)
+    return None
